@@ -538,6 +538,24 @@ func cliRemove(c *Ctx) {
 	}
 }
 
+// cliNoReadOfOut (C19): the path named by -out is the user's choice and may be a pipe or a device
+// (`-out /dev/stdout | cat`, a FIFO with a reader waiting): reading it can block for ever.
+func cliNoReadOfOut(c *Ctx) {
+	run, pos := c.Run, mainPos(c)
+	for _, p := range cliPathsOf(c) {
+		if !p.Env.Out {
+			continue
+		}
+		n := 0
+		for _, e := range p.Events {
+			if e.Kind == "readfile" && symIs(e.A, tokOut) {
+				n++
+			}
+		}
+		run.Check("G-CLI/no-read-of-out", p.Env.String()+" "+p.kinds(), pos, n == 0, "with -out: "+describe(p)+" — the content at the -out path is read; when -out names a pipe or a device the read does not return, and moq hangs instead of writing")
+	}
+}
+
 // cliAllOrNothing: C16/C17 — what is written where, and only after everything succeeded.
 func cliAllOrNothing(c *Ctx) {
 	run, pos := c.Run, mainPos(c)
